@@ -131,6 +131,14 @@ pub async fn instrument_and_run_main(subsys: SubsystemHandle) -> Result<()> {
     run_main(subsys, config, peers_rx).await
 }
 
+/// Verification hook (off by default): run the orchestrator with an explicit argument vector and
+/// without installing the process-wide telemetry.
+#[cfg(worterbuch_verif)]
+pub async fn verif_run_main(subsys: SubsystemHandle, argv: Vec<String>) -> Result<()> {
+    let (config, peers_rx) = config::verif_load_config(&subsys, argv).await?;
+    run_main(subsys, config, peers_rx).await
+}
+
 async fn run_main(
     subsys: SubsystemHandle,
     mut config: config::Config,
